@@ -1,0 +1,19 @@
+//go:build verif
+
+package verifjson
+
+import (
+	"github.com/csgura/fp/test/internal/docexample"
+	"github.com/csgura/fp/test/internal/testpk1"
+	"github.com/csgura/fp/test/internal/testpk2"
+)
+
+type (
+	World           = testpk1.World
+	WorldMutable    = testpk1.WorldMutable
+	Address         = docexample.Address
+	AddressMutable  = docexample.AddressMutable
+	Greeting        = testpk2.Greeting
+	GreetingMutable = testpk2.GreetingMutable
+	OptionalInt     = docexample.OptionalInt
+)
